@@ -118,9 +118,17 @@ def essential : List Item → List Item
   | .keyword _ :: rest => essential rest
   | x :: rest => x :: essential rest
 
+/-- drop punctuation other than `=` and all keywords: redundant parentheses must be gone before
+puns are compared (`x = ((x))` and `x = x` are the same spelling) -/
+def skeleton : List Item → List Item
+  | [] => []
+  | .punct t :: rest => if t = "=" then .punct t :: skeleton rest else skeleton rest
+  | .keyword _ :: rest => skeleton rest
+  | x :: rest => x :: skeleton rest
+
 /-- the normal form compared by the oracle -/
 def normalize (items : List Item) : List Item :=
-  (essential (collapsePuns (markUnits items))).map canonComment
+  (essential (collapsePuns (skeleton (markUnits items)))).map canonComment
 
 /-- the comments, in order -/
 def comments (l : List Item) : List Item := l.filter Item.isComment
